@@ -271,9 +271,11 @@ def count_vis(vs: list) -> int:
 def gen_viewport(rng: random.Random) -> dict:
     if rng.random() < 0.4:
         return {'3d': True, 'pos': rvec(rng), 'ang': [rng.uniform(0, 359.9), float(rng.randint(0, 359)), 0.0]}
+    def uv(x: float) -> float:
+        return x + 0.5 if abs(x) == 65536.0 else x
     return {'3d': False, 'axis': rng.choice('xyz'),
             # u/v of exactly +-65536 cannot be carried: that value marks the view axis in the file (format limit)
-            'u': rng.choice([0.0, 0.0, rfloat(rng), 65535.5]), 'v': rng.choice([0.0, rfloat(rng), -65537.0]),
+            'u': uv(rng.choice([0.0, 0.0, rfloat(rng), 65535.5])), 'v': uv(rng.choice([0.0, rfloat(rng), -65537.0])),
             'zoom': rng.choice([1.0, 0.5, abs(rfloat(rng)) or 1.0])}
 
 
